@@ -152,6 +152,10 @@ func buildArena(sc *pw.Scenario) error {
 		case "fifo":
 			// a named pipe where the rule file should be: opening it must not be waited for
 			syscall.Mkfifo(pw.SrcRoot+"/.terraformignore", 0o644)
+		case "fifo-link":
+			// the same behind a symlink: what matters is what opening the name would reach
+			syscall.Mkfifo(pw.SrcRoot+"/rules.fifo", 0o644)
+			os.Symlink("rules.fifo", pw.SrcRoot+"/.terraformignore")
 		case "longline":
 			// valid rules, then a line longer than a line scanner accepts
 			long := *sc.Rules + "\n" + strings.Repeat("x", 70000) + "\n"
@@ -468,6 +472,27 @@ func Run(sc *pw.Scenario) *simkit.Outcome {
 				fmt.Sscan(h[len("shared:fail@"):], &off)
 				bad := simkit.NewSimWriter("hist-fail", simkit.WriterPlan{Faults: []simkit.Fault{{Off: off, Kind: "err", Sticky: true}}}, simkit.NewLog(), nil)
 				doPack(sc.Opts, pw.SrcRoot, bad)
+			case h == "shared:worn":
+				// the same Packer has served 140 calls on another tree, each following a chain of
+				// thirty links outside that tree
+				if sharedPacker != nil {
+					os.MkdirAll("/w/hist7/src", 0o755)
+					os.MkdirAll("/w/hist7/out", 0o755)
+					os.WriteFile("/w/hist7/out/end", []byte("h7"), 0o644)
+					for c := 0; c < 30; c++ {
+						next := fmt.Sprintf("c%02d", c+1)
+						if c == 29 {
+							next = "end"
+						}
+						os.Symlink(next, fmt.Sprintf("/w/hist7/out/c%02d", c))
+					}
+					os.Symlink("../out/c00", "/w/hist7/src/l")
+					os.WriteFile("/w/hist7/src/main.tf", []byte("h7"), 0o644)
+					for c := 0; c < 140; c++ {
+						doPack(sc.Opts, "/w/hist7/src", simkit.NewSimWriter("hist", simkit.WriterPlan{}, simkit.NewLog(), nil))
+					}
+					out.Probe("packer-worn-by-earlier-calls")
+				}
 			case h == "shared:hist3":
 				// the same Packer serves another root first (its relative allow-list entry means something else there)
 				doPack(sc.Opts, "/w/hist3/inner", sink)
